@@ -437,7 +437,28 @@ func Run(r *ev.Run) {
 		}
 		var s jsonschema.Schema
 		if err := json.Unmarshal([]byte(d), &s); err != nil {
+			// one malformed member next to well-formed ones: whether the document is refused
+			// must not depend on the order in which the members are visited
+			if strings.Contains(d, `"zmal`) || strings.Contains(d, `"amal`) {
+				for k := 0; k < 60; k++ {
+					var t jsonschema.Schema
+					if json.Unmarshal([]byte(d), &t) == nil {
+						b, _ := json.Marshal(&t)
+						r.Fail(key+" [sometimes accepted]", map[string]any{"class": "a malformed document is refused or accepted depending on map iteration order", "first_error": err.Error(), "accepted_as": string(b)})
+						break
+					}
+				}
+			}
 			return // not a document Unmarshal accepts
+		}
+		if strings.Contains(d, `"zmal`) || strings.Contains(d, `"amal`) {
+			for k := 0; k < 60; k++ {
+				var t jsonschema.Schema
+				if err := json.Unmarshal([]byte(d), &t); err != nil {
+					r.Fail(key+" [sometimes accepted]", map[string]any{"class": "a malformed document is refused or accepted depending on map iteration order", "later_error": err.Error()})
+					break
+				}
+			}
 		}
 		r.Eval(1)
 		r.NontrivialN(1)
@@ -505,6 +526,17 @@ func oddities() []string {
 	for _, kv := range []string{`"minlength":3`, `"MinLength":3`, `"MINLENGTH":1`, `"additionalproperties":false`, `"AdditionalProperties":false`, `"UniqueItems":true`, `"uniqueitems":true`,
 		`"exclusiveminimum":1`, `"ExclusiveMaximum":0`, `"$DynamicRef":"#nope"`, `"$dynamicref":"#nope"`, `"minitems":5`, `"maxProperties ":0`, `"propertynames":false`, `"prefixitems":[false]`, `"dependentrequired":{"a":["zz"]}`, `"readonly":"yes"`, `"contentschema":1`, `"multipleof":7`, `"patternproperties":{"(":1}`} {
 		out = append(out, `{`+kv+`}`, `{"type":"string",`+kv+`}`, `{"items":{`+kv+`}}`)
+	}
+	// one malformed member ("amal" / "zmal": sorts first / last) next to well-formed members of the same map
+	for _, nm := range []string{"amal", "zmal"} {
+		for _, w := range []string{
+			`{"dependencies":{"%s":[1],"b":["c"],"d":{"type":"integer"}}}`, `{"dependencies":{"%s":5,"b":["c"]}}`, `{"dependencies":{"%s":{"type":7},"ok":{"type":"integer"},"s":["a"]}}`, `{"dependencies":{"%s":"x","b":[],"c":true}}`,
+			`{"$schema":"http://json-schema.org/draft-07/schema#","dependencies":{"%s":[1],"b":["c"]}}`,
+			`{"properties":{"%s":1,"b":{},"c":true}}`, `{"$defs":{"%s":"x","b":true}}`, `{"patternProperties":{"%s":[],"b":{}}}`, `{"dependentRequired":{"%s":[1],"b":["c"]}}`, `{"dependentRequired":{"%s":"x","b":[]}}`,
+			`{"dependentSchemas":{"%s":3,"b":{}}}`, `{"definitions":{"%s":null,"b":{"type":[]}}}`, `{"properties":{"p":{"dependencies":{"%s":[{}],"b":["c"]}}}}`, `{"$vocabulary":{"%s":1,"b":true}}`,
+		} {
+			out = append(out, fmt.Sprintf(w, nm))
+		}
 	}
 	// numbers that float64 cannot hold exactly, or at all
 	for _, n := range []string{`9007199254740993`, `12345678901234567890`, `0.1000000000000000000001`, `-9007199254740993`, `1e400`, `-1e400`, `1e-400`} {
